@@ -205,31 +205,22 @@ func c03Directives(p *core.Program, r *core.Report, e *engines) {
 		if sig == nil || h == nil || sig.Operand != "u16" || sig.Pop != 1 || sig.Push != 1 {
 			continue
 		}
-		ast.Inspect(h.Clause, func(n ast.Node) bool {
-			cc, ok := n.(*ast.CaseClause)
-			if !ok || cc == h.Clause {
-				return true
-			}
-			for _, ex := range cc.List {
-				tv, ok := vinfo.Types[ex]
-				if !ok || tv.Value == nil {
-					continue
-				}
-				ast.Inspect(cc, func(m ast.Node) bool {
+		for val, body := range rawDispatch(vinfo, h.Clause) {
+			for _, st := range body {
+				ast.Inspect(st, func(m ast.Node) bool {
 					c, ok := m.(*ast.CallExpr)
 					if !ok {
 						return true
 					}
 					if fn := eng.CalleeOf(vinfo, c); fn != nil && fn.Pkg() == p.Pkg("vm").Types && fn.Type().(*types.Signature).Recv() == nil {
 						if res := fn.Type().(*types.Signature).Results(); res.Len() == 1 {
-							castResult[name+" "+tv.Value.ExactString()] = res.At(0).Type().String()
+							castResult[name+" "+val] = res.At(0).Type().String()
 						}
 					}
 					return true
 				})
 			}
-			return true
-		})
+		}
 	}
 	for _, d := range dirs {
 		key := "expr." + d.name + "/directive reaches a conversion of the promised kind"
